@@ -512,10 +512,13 @@ class Light(Device):
                 if all(
                     c.brightness.initialized for c in self._iter_individual_colors()
                 ):
-                    self.red.brightness.set(color[0])
-                    self.green.brightness.set(color[1])
-                    self.blue.brightness.set(color[2])
-                    self.white.brightness.set(white)
+                    red, green, blue = color
+                    self._set_individual_colors(
+                        (self.red, red),
+                        (self.green, green),
+                        (self.blue, blue),
+                        (self.white, white),
+                    )
                     return
             logger.warning("RGBW not supported for device %s", self.get_name())
         else:
@@ -526,11 +529,20 @@ class Light(Device):
                 if all(
                     c.brightness.initialized for c in (self.red, self.green, self.blue)
                 ):
-                    self.red.brightness.set(color[0])
-                    self.green.brightness.set(color[1])
-                    self.blue.brightness.set(color[2])
+                    red, green, blue = color
+                    self._set_individual_colors(
+                        (self.red, red), (self.green, green), (self.blue, blue)
+                    )
                     return
             logger.warning("Colors not supported for device %s", self.get_name())
+
+    @staticmethod
+    def _set_individual_colors(*colors: tuple[_SwitchAndBrightness, int]) -> None:
+        """Set individual colors. Send nothing if one of the values is invalid."""
+        for color, value in colors:
+            color.brightness.to_knx(value)
+        for color, value in colors:
+            color.brightness.set(value)
 
     @property
     def current_hs_color(self) -> tuple[float, float] | None:
@@ -551,11 +563,15 @@ class Light(Device):
         if not self.supports_hs_color:
             logger.warning("HS-color not supported for device %s", self.get_name())
             return
+        hue, saturation = hs_color
+        # send nothing if one of the values is invalid
+        self.hue.to_knx(hue)
+        self.saturation.to_knx(saturation)
         value_sent = False
-        if (hue := hs_color[0]) != self.hue.value:
+        if hue != self.hue.value:
             self.hue.set(hue)
             value_sent = True
-        if (saturation := hs_color[1]) != self.saturation.value:
+        if saturation != self.saturation.value:
             self.saturation.set(saturation)
             value_sent = True
         if not value_sent:
